@@ -53,6 +53,13 @@ def _run_tests(crate_dir, c, test_filter):
     failed = re.findall(r"^test (\S*kani_concrete_playback_\S+) \.\.\. FAILED", out, re.M)
     passed = re.findall(r"^test (\S*kani_concrete_playback_\S+) \.\.\. ok", out, re.M)
     panics = re.findall(r"panicked at [^\n]*\n([^\n]*)", out)
+    # a non-unwinding panic (e.g. the UB check of unreachable_unchecked, a panic inside a Drop
+    # during unwinding) aborts the test process: libtest prints no verdict line, cargo reports
+    # the signal. That is a native failure of the replayed test, not a pass.
+    ab = re.search(r"\(signal: \d+, (SIG[A-Z]+)[^)]*\)", out)
+    if ab and not failed:
+        running = re.findall(r"^test (\S*kani_concrete_playback_\S+) \.\.\. *$", out, re.M)
+        failed = [(running[-1] if running else "kani_concrete_playback") + " <process aborted: %s>" % ab.group(1)]
     return failed, passed, panics, out
 
 
